@@ -305,7 +305,7 @@ def extra_specs(kmode: str = "zero", tier: str = "quick"):
         sigma = SIGMA_CORE + TRIVIA_SIGMA[tv]
         out.extend(batch_specs(starts, TRIVIA[tv] + HELPERS, inputs(sigma, (4 if tv == "none" else 3) - cut), kmode, f"counts({tv})"))
     # (3) empty (reversed) ranges, alone and in choices made only of them, under every operator (they never match: a repetition over them ends at once)
-    er = (("range", "b", "a"), ("range", "z", "y"), S("a"))
+    er = (("range", "b", "a"), ("grp", ("alt", (("range", "b", "a"), ("range", "z", "y")))), ("grp", ("alt", (("range", "b", "a"), ("range", "z", "y"), ("range", "9", "0")))), S("a"))
     ebodies = gast.exprs_upto(3, er, gast.U_CORE, ("seq", "alt"), gast.Env(HELPERS))
     out.extend(batch_specs([((), (m, b)) for b in ebodies for m in ("", "@")], HELPERS, inputs("ab", 3 - cut), kmode, "empty-ranges"))
     env = gast.Env(HELPERS)
@@ -456,7 +456,7 @@ SKIP_RULE_TEXT = ("; plus skip shapes: (!stop ~ ANY)* with stop in {\"b\", (\"b\
                   "inputs over {a,b,B}+trivia up to length 4 (3 with trivia or with every start position)")
 
 EXTRA_RULE_TEXT = ("; plus (c) counts: every bound {m} {m,} {,n} {m,n} with counts 0..3 (zero counts included) over \"a\", n and (\"ab\"|\"a\"), alone / before \"a\" / before EOI / in an abandoned alternative, normal and atomic, without and with implicit whitespace; "
-                   "(c2) empty-ranges: every expression with <= 3 nodes over {'b'..'a', 'z'..'y', \"a\"}; (d) newline: every expression with <= 2 nodes over {NEWLINE, \"a\", \"\\n\", ANY} on every string over {a, \\r, \\n} up to length 4, also with WHITESPACE = _{ NEWLINE | \" \" }")
+                   "(c2) empty-ranges: every expression with <= 3 nodes over {'b'..'a', ('b'..'a' | 'z'..'y'), ('b'..'a' | 'z'..'y' | '9'..'0'), \"a\"}; (d) newline: every expression with <= 2 nodes over {NEWLINE, \"a\", \"\\n\", ANY} on every string over {a, \\r, \\n} up to length 4, also with WHITESPACE = _{ NEWLINE | \" \" }")
 
 
 def c01_rule_text():
